@@ -16,14 +16,22 @@ import (
 // Mutant is one self-test variant: a one-edit rewrite of a repository file, applied through the
 // loader's overlay (no scratch copy), that must make the expected rule instance fire.
 type Mutant struct {
-	Name            string `json:"name"`
-	Property        string `json:"property"`
-	File            string `json:"file"`
-	Find            string `json:"find"`
-	Replace         string `json:"replace"`
-	ExpectRule      string `json:"expect_rule"`
-	ExpectConstruct string `json:"expect_construct"` // substring
-	Note            string `json:"note,omitempty"`
+	Name            string       `json:"name"`
+	Property        string       `json:"property"`
+	File            string       `json:"file"`
+	Find            string       `json:"find"`
+	Replace         string       `json:"replace"`
+	Edits           []MutantEdit `json:"edits,omitempty"` // additional (or alternative) edits, e.g. the hunks of a seeded patch
+	ExpectRule      string       `json:"expect_rule"`
+	ExpectConstruct string       `json:"expect_construct"` // substring
+	Note            string       `json:"note,omitempty"`
+}
+
+// MutantEdit is one textual replacement in one file.
+type MutantEdit struct {
+	File    string `json:"file"`
+	Find    string `json:"find"`
+	Replace string `json:"replace"`
 }
 
 func mutantOverlay(repo, path string) (map[string][]byte, error) {
@@ -35,15 +43,30 @@ func mutantOverlay(repo, path string) (map[string][]byte, error) {
 	if err := json.Unmarshal(b, &m); err != nil {
 		return nil, err
 	}
-	f := filepath.Join(repo, m.File)
-	src, err := os.ReadFile(f)
-	if err != nil {
-		return nil, fmt.Errorf("anchor file missing: %s", m.File)
+	edits := m.Edits
+	if m.File != "" {
+		edits = append([]MutantEdit{{m.File, m.Find, m.Replace}}, edits...)
 	}
-	if strings.Count(string(src), m.Find) != 1 {
-		return nil, fmt.Errorf("anchor text occurs %d times in %s", strings.Count(string(src), m.Find), m.File)
+	out := map[string][]byte{}
+	for _, e := range edits {
+		f := filepath.Join(repo, e.File)
+		src, ok := out[f]
+		if !ok {
+			var err error
+			src, err = os.ReadFile(f)
+			if err != nil {
+				return nil, fmt.Errorf("anchor file missing: %s", e.File)
+			}
+		}
+		if n := strings.Count(string(src), e.Find); n != 1 {
+			return nil, fmt.Errorf("anchor text occurs %d times in %s", n, e.File)
+		}
+		out[f] = []byte(strings.Replace(string(src), e.Find, e.Replace, 1))
 	}
-	return map[string][]byte{f: []byte(strings.Replace(string(src), m.Find, m.Replace, 1))}, nil
+	if len(out) == 0 {
+		return nil, fmt.Errorf("mutant has no edits")
+	}
+	return out, nil
 }
 
 // selfTest runs every stored mutant of the property in a sub-process (thorough tier).
